@@ -280,10 +280,10 @@ def run(chk):
     chk.count('seed_runs', len(SEEDS) * len(srcs))
     # (4) sessions
     dd = tlc.workdir('C17_session')
-    tlc.write_mc(dd, 'MCS', 'Session', ['MCForms == {%s}' % ', '.join(tlc.tla_str(f) for f in (['str', 'gen'] if quick else ['str', 'list', 'gen', 'file'])),
+    tlc.write_mc(dd, 'MCS', 'Session', ['MCForms == {%s}' % ', '.join(tlc.tla_str(f) for f in (['str', 'gen'] if quick else ['str', 'gen', 'file'])),
                                         'MCEdits == {%s}' % ', '.join(tlc.tla_str(e) for e in EDITS)],
                  'SPECIFICATION Spec\nCONSTANTS\n NSrc = %d\n Forms <- MCForms\n EditKinds <- MCEdits\n MaxSteps = %d\n'
-                 'INVARIANT Dump\nPROPERTY Isolation\nCHECK_DEADLOCK FALSE\n' % (2 if quick else 3, 4))
+                 'INVARIANT Dump\nPROPERTY Isolation\nCHECK_DEADLOCK FALSE\n' % (2, 4))
     sres = tlc.run(dd, 'MCS', timeout=3000)
     chk.add_tlc('session', sres, 'Session: all interleavings of parse/edit/reparse/drop on two documents, 4 steps')
     if sres.violated:
